@@ -326,6 +326,9 @@ bool PeriodicExportingMetricReader::OnForceFlush(std::chrono::microseconds timeo
 
 bool PeriodicExportingMetricReader::OnShutDown(std::chrono::microseconds timeout) noexcept
 {
+  // Two threads that both saw the worker joinable would both join it: std::thread::join() on one
+  // object from two threads is undefined (in practice one caller never returns, or throws).
+  std::lock_guard<std::mutex> guard(shutdown_m_);
   if (worker_thread_.joinable())
   {
     cv_.notify_all();
